@@ -1,4 +1,5 @@
 import Pyxv.Proofs.JValLemmas
+import Pyxv.Proofs.ToJsonLemmas
 /-!
 # C16 — the JSON intermediate form is a faithful, reloadable representation: property theorems
 
@@ -59,5 +60,81 @@ theorem dumps_loads_dumps (j : J) (h : UniqueKeys j) : (parse (print j)).map pri
 
 example : (parse (print (.arr [.str "x".toList, .num 7]))).map print = some (print (.arr [.str "x".toList, .num 7])) :=
   dumps_loads_dumps _ (by simp [UniqueKeys, UniqueKeysL])
+
+
+/-!
+Part 2: the dict layer — `to_json_dict` (`ToJson.ownDump`: delete the class's key list at the top level,
+drop falsy values) and the builder's reading of a dumped dict into slots (`ToJson.reloadSlots`).  The
+tree recursion, `_qtd_kwargs` restoration and the group's `type` are in `ToJson.toJson`, which is tied to the
+real `to_json_dict` by the correspondence run but has no theorem here (see notes/design_C16.md).
+-/
+open Pyxv.ToJson
+
+/-- dump, load, dump: what an element dumps after being rebuilt from its own dump is the same dict
+    (keys, order, values), for every class's delete list and every slot assignment. -/
+theorem dump_stable (del : List Str) (slots : Dict) (hn : (slots.map Prod.fst).Nodup) :
+    ownDump del (reloadSlots (slots.map Prod.fst) (ownDump del slots)) = ownDump del slots := by
+  rw [reloadSlots_ownDump del slots hn, ownDump_eq_filter, ownDump_eq_filter, filter_map_keeps]
+
+example : ownDump ["bind".toList] (reloadSlots ["name".toList, "bind".toList, "label".toList]
+      (ownDump ["bind".toList] [("name".toList, .str "g".toList), ("bind".toList, .obj [("relevant".toList, .str "1".toList)]),
+        ("label".toList, .null)]))
+    = ownDump ["bind".toList] [("name".toList, .str "g".toList), ("bind".toList, .obj [("relevant".toList, .str "1".toList)]),
+        ("label".toList, .null)] :=
+  dump_stable _ _ (by decide)
+
+/-- PARTIAL (the full statement — the rebuilt survey generates the same XForm — is false on the pinned
+    code: F12, F37).  What is proved: every slot that the class's `to_json_dict` does not delete comes back
+    from dump + reload with its value (a falsy value comes back as a falsy initial value).  The guard
+    `k ∉ del` is exactly what the code loses: `bind` of a group, `extra_data` (extra choice columns), the
+    type-table keys of a question (`hint` for four types). -/
+theorem survey_json_roundtrip_partial (del : List Str) (slots : Dict) (hn : (slots.map Prod.fst).Nodup)
+    (k : Str) (v : J) (hm : (k, v) ∈ slots) (hk : k ∉ del) :
+    lookup k (reloadSlots (slots.map Prod.fst) (ownDump del slots)) = some (if truthy v then v else .null) := by
+  rw [reloadSlots_ownDump del slots hn, lookup_map_snd _ slots hn k v hm]
+  simp [keeps, hk]
+
+example : lookup "label".toList (reloadSlots ["name".toList, "label".toList]
+    (ownDump ["extra_data".toList] [("name".toList, .str "g".toList), ("label".toList, .str "L".toList)]))
+    = some (.str "L".toList) := by
+  have := survey_json_roundtrip_partial ["extra_data".toList] [("name".toList, .str "g".toList), ("label".toList, .str "L".toList)]
+    (by decide) "label".toList (.str "L".toList) (by simp) (by decide)
+  simpa [truthy] using this
+
+/-- the complement: a deleted key never survives — whatever the slot held, the rebuilt element has a
+    falsy value there.  With `group_deletes_bind` / `every_class_deletes_extra_data` /
+    `question_deletes_type_table_keys` this is the model's account of F12 and F37. -/
+theorem deleted_key_lost (del : List Str) (slots : Dict) (hn : (slots.map Prod.fst).Nodup)
+    (k : Str) (v : J) (hm : (k, v) ∈ slots) (hk : k ∈ del) :
+    lookup k (reloadSlots (slots.map Prod.fst) (ownDump del slots)) = some .null := by
+  rw [reloadSlots_ownDump del slots hn, lookup_map_snd _ slots hn k v hm]
+  simp [keeps, hk]
+
+example : lookup "bind".toList (reloadSlots ["name".toList, "bind".toList]
+    (ownDump (allDelete .group ["name".toList, "bind".toList] [] ["parent".toList])
+      [("name".toList, .str "g".toList), ("bind".toList, .obj [("relevant".toList, .str "1 = 1".toList)])]))
+    = some .null :=
+  deleted_key_lost _ _ (by decide) _ (.obj [("relevant".toList, .str "1 = 1".toList)]) (by simp) (by decide)
+
+theorem group_deletes_bind (names qtd extra : List Str) : "bind".toList ∈ allDelete .group names qtd extra := by
+  simp [allDelete, clsDelete]
+
+theorem every_class_deletes_extra_data (cls : Cls) (names qtd extra : List Str) :
+    "extra_data".toList ∈ allDelete cls names qtd extra := by
+  simp [allDelete]
+
+theorem question_deletes_type_table_keys (names qtd extra : List Str) (k : Str) (hk : k ∈ qtd) :
+    k ∈ allDelete .question names qtd extra := by
+  simp [allDelete, clsDelete, hk]
+
+/-- facts about the tables regenerated from /repo on every run: `bind` is a slot of sections (so the group's
+    bind is lost by deletion, not by being an unknown key), and exactly four types carry a top-level
+    `hint` in the type table (the F37 hint loss applies to these and no others). -/
+theorem bind_is_a_section_slot : "bind" ∈ Gen.sectionFields := by decide
+
+theorem types_with_table_hint :
+    (Gen.questionTypes.filter fun e => e.2.any fun t => t.1 == "" && t.2.1 == "hint").map Prod.fst =
+      ["number of days in last month", "number of days in last six months", "phone number",
+       "number of days in last year"] := by decide +kernel
 
 end Pyxv.C16
